@@ -45,6 +45,8 @@ def main():
             ('MC_Syntax', dict(Mode='alts', Size='small', Emit=False, CaseOp='rparse', Slice=0, Of=64), ['InvFoldMeans']),
             ('MC_Api', dict(MaxOps=2, Alts=1, Emit=False, Slice=0, Of=32, Of2=32), ['InvIdeal']),
             ('MC_Tokens', dict(MaxLen=2, Emit=False, Slice=0, Of=1), ['InvSpecTotal', 'InvRangeTextTotal']),
+            ('MC_Lists', dict(MaxList=2, Emit=False, Slice=0, Of=1), ['InvAnswerExists']),
+            ('MC_Tuple', dict(Mode='grid', Emit=False), ['InvTupleRoundTrip']),
         ]
         for i, (mod, consts, invs) in enumerate(cov_models):
             # action coverage only: no invariant is evaluated (TLC's coverage bookkeeping on the deeply recursive
